@@ -57,7 +57,7 @@ def extract_facts(cfg='default', repo=None, quiet=True):
     repo = repo or REPO
     os.makedirs(WORK, exist_ok=True)
     ensure_driver()
-    tag = cfg if repo == REPO else cfg + '-' + hashlib.sha1(repo.encode()).hexdigest()[:8]
+    tag = cfg if os.path.realpath(repo) == '/repo' else cfg + '-' + hashlib.sha1(repo.encode()).hexdigest()[:8]
     fdir = os.path.join(WORK, 'facts-' + tag)
     tdir = os.path.join(WORK, 'target-' + cfg)
     lock = open(os.path.join(WORK, 'lock-' + cfg), 'w')
